@@ -209,6 +209,18 @@ class PanelKind(Kind):
             'strain_lin': field('strain', 4, NLterms=False),
             'stress': field('stress', 4),
         }
+        def plot_panel(p, c_, **kw):
+            import matplotlib
+            matplotlib.use('Agg')
+            import matplotlib.pyplot as plt
+            try:
+                p.plot(c_, gridx=6, gridy=5, save=False, num_levels=5, **kw)
+            finally:
+                plt.close('all')
+            return None
+        ops['uvw_grid'] = pure(lambda p, c_: p.uvw(c_, gridx=6, gridy=5), c)
+        ops['plot'] = pure(lambda p, c_: plot_panel(p, c_), c)
+        ops['plot_deform'] = pure(lambda p, c_: plot_panel(p, c_, deform_u=True, vec='Nxx'), c)
         for k in (1, 2, 3, 7, 16):
             ops['uvw@%d' % k] = field('uvw', k)
         for k in (1, 3, 16):
@@ -268,6 +280,8 @@ class AssemblyKind(Kind):
             'kG0': lambda a: a.calc_kG0(silent=True),
             'kM': lambda a: a.calc_kM(silent=True),
             'k0_conn': lambda a: a.get_k0_conn(),
+            'k0_nofin': lambda a: a.calc_k0(silent=True, finalize=False),
+            'kT_nofin': pure(lambda a, c_: a.calc_kT(c=c_, silent=True, finalize=False)),
             'kT': pure(lambda a, c_: a.calc_kT(c=c_, silent=True)),
             'fint': pure(lambda a, c_: np.asarray(a.calc_fint(c_, silent=True))),
             'fext': lambda a: a.calc_fext(silent=True),
@@ -289,7 +303,7 @@ class BayKind(Kind):
     def make(self, seed):
         from compmech.stiffpanelbay import StiffPanelBay
         spb = StiffPanelBay()
-        spb.a, spb.b, spb.m, spb.n = 2.0, 1.0, 4, 4
+        spb.a, spb.b, spb.m, spb.n = 2.0, 1.0, 5, 5
         spb.stack, spb.plyt, spb.laminaprop, spb.mu = [0., 90., 90., 0.], pan.PLYT, pan.M6, 1500.
         spb.beta, spb.gamma, spb.aeromu = 2.3, 0.0, 0.11
         spb.num_eigvalues = 3
@@ -334,10 +348,77 @@ class BayKind(Kind):
             'uvw_skin@2': sized(lambda b, c: _with_cores(b, 2, lambda: b.uvw_skin(c, xs=xs.copy(), ys=ys.copy()))),
             'uvw_skin@16': sized(lambda b, c: _with_cores(b, 16, lambda: b.uvw_skin(c, xs=xs.copy(), ys=ys.copy()))),
         }
+        def plot_op(b, c, **kw):
+            import matplotlib
+            matplotlib.use('Agg')
+            import matplotlib.pyplot as plt
+            try:
+                b.plot_skin(c, gridx=6, gridy=5, save=False, silent=True, num_levels=5, **kw)
+            finally:
+                plt.close('all')
+            return None
+        ops['uvw_skin_grid'] = sized(lambda b, c: b.uvw_skin(c, gridx=6, gridy=5))
+        ops['plot_skin'] = sized(lambda b, c: plot_op(b, c))
+        ops['plot_skin_deform'] = sized(lambda b, c: plot_op(b, c, deform_u=True, deform_u_sf=50.))
         if self.stiff in ('b2d', 't2d'):
             ops['uvw_flange'] = sized(lambda b, c: b.uvw_stiffener(c, 0, region='flange', gridx=4, gridy=3))
         if self.stiff == 't2d':
             ops['uvw_base'] = sized(lambda b, c: b.uvw_stiffener(c, 0, region='base', gridx=4, gridy=3))
+        return ops
+
+
+class ConeCylKind(Kind):
+    def __init__(self, alpha):
+        self.alpha = alpha
+        self.name = 'ConeCyl/clpt_donnell_bc1/alpha%g' % alpha
+        self.warmup = ('k0',)
+
+    def make(self, seed):
+        from ..ref import shell as rs
+        cc = rs.shell_of(dict(model='clpt_donnell_bc1', alphadeg=self.alpha, m1=2, m2=1, n2=2, s=20, nx=16, nt=16, Fc=-2.0e3, P=1.0e3))
+        cc.add_force(0.1, 30.0, 0., 0., -20., increment=True)
+        cc.add_force(0.3, -100.0, 1., 2., 5., increment=False)
+        cc.num_eigvalues = 2
+        cc.analysis.initialInc = 0.5
+        return cc
+
+    def ops(self, seed):
+        n = 3 + 3 * 2 + 6 * 1 * 2 - 2
+        c = _c_for(n, seed, scale=2e-4)
+        xs = np.array([0.05, 0.2, 0.39])
+        ts = np.array([0.3, -2.0, 1.1])
+
+        def pure(fn):
+            def run(cc):
+                c2 = c.copy()
+                r = fn(cc, c2)
+                if not np.array_equal(c2, c):
+                    raise InputMutated()
+                return r
+            return run
+
+        def cores(k, fn):
+            def run(cc, c2):
+                old = (cc.ni_num_cores, cc.out_num_cores)
+                cc.ni_num_cores = cc.out_num_cores = k
+                try:
+                    return fn(cc, c2)
+                finally:
+                    cc.ni_num_cores, cc.out_num_cores = old
+            return pure(run)
+        ops = {
+            'k0': lambda cc: cc.calc_k0(silent=True),
+            'fext': lambda cc: cc.calc_fext(silent=True),
+            'fext.4': lambda cc: cc.calc_fext(inc=0.4, silent=True),
+            'static': lambda cc: [np.asarray(v) for v in cc.static(silent=True)],
+            'fint@1': cores(1, lambda cc, c2: np.asarray(cc.calc_fint(c2, silent=True))),
+            'fint@3': cores(3, lambda cc, c2: np.asarray(cc.calc_fint(c2, silent=True))),
+            'kT@1': cores(1, lambda cc, c2: cc.calc_kT(c2, silent=True)),
+            'kT@4': cores(4, lambda cc, c2: cc.calc_kT(c2, silent=True)),
+            'uvw@1': cores(1, lambda cc, c2: [np.asarray(v) for v in cc.uvw(c2, xs=xs.copy(), ts=ts.copy())]),
+            'uvw@5': cores(5, lambda cc, c2: [np.asarray(v) for v in cc.uvw(c2, xs=xs.copy(), ts=ts.copy())]),
+            'strain': cores(2, lambda cc, c2: np.asarray(cc.strain(c2, xs=xs.copy(), ts=ts.copy()))),
+        }
         return ops
 
 
@@ -360,7 +441,7 @@ def _bay_size(b):
 
 
 KINDS = {k.name: k for k in [PanelKind('plate'), PanelKind('cpanel'), AssemblyKind(), BayKind('b1d'), BayKind('b1d_base'),
-                             BayKind('b2d'), BayKind('t2d')]}
+                             BayKind('b2d'), BayKind('t2d'), ConeCylKind(0.0), ConeCylKind(20.0)]}
 
 
 # ----------------------------------------------------------------------------------------------- exploration
